@@ -17,9 +17,16 @@ import vlib
 
 PID = "C09"
 FILES = ["theories/Properties/C09.v", "theories/Examples/C09Examples.v",
-         "theories/Properties/C09Reachable.v", "theories/Examples/C09ReachableExamples.v"]
+         "theories/Properties/C09Reachable.v", "theories/Examples/C09ReachableExamples.v",
+         "theories/Examples/C09Wirings.v"]
 UNFIXABLE = {"KUConflict", "KNil", "KFkDangling"}
 ORDER_KEY = "C09:fix-order-unique-on-nullable-fk"
+# a fix run that removes an entry from a bucket which was already written in the same transaction skips the entry behind
+# it (bbolt: Cursor.Delete / Bucket.Delete under an open cursor + Next on a materialised node).  Input classes in which the
+# fix run meets such buckets by construction: the raw corruption writes sit in the transaction of the fix run (modes CJ,
+# LCJ with at least one corruption), and the witnesses of corpus/store/c09_dirty.txt (design/C09.md section 10)
+DIRTY_KEY = "C09:fix-skips-after-delete-in-written-bucket"
+CONVERGENCE_KEYS = ("C09:fix-not-convergent", "C09:fix-leaves-inconsistency")
 
 
 def parse_phases(line):
@@ -112,10 +119,72 @@ def nonnull_oracle(sch, facts):
     return probs
 
 
+def child_fk_oracle(sch, facts):
+    """C04's statements for fk indexes / fk constraints declared on a CHILD store over a field of its own (the referrers
+    are the entities with data of that child store, the field lives in the child bucket); storefam.fk_oracle reads root
+    fields only and is used for the constraints of root stores"""
+    probs = []
+    ents, fvals, setm, child = {}, {}, {}, set()
+    for f in facts:
+        p = f.split(":")
+        if p[0] == "E":
+            ents.setdefault(p[1], set()).add(p[2])
+        elif p[0] == "CF":
+            fvals[(p[1], p[2], p[3], p[4])] = p[5]
+        elif p[0] == "S":
+            setm.setdefault((p[1], p[2], p[3]), set()).add(p[4])
+        elif p[0] == "C":
+            child.add((p[1], p[2], p[3]))
+    for sname in sch.order:
+        sd = sch.stores[sname]
+        if not sd["parent"]:
+            continue
+        root = sch.root(sname)
+        for c in sd["cons"]:
+            if c[0] in ("FI", "FC") and any(fn == c[1] for fn, _ in sd["fields"]):
+                field, target = c[1], c[2]
+                troot = sch.root(target)
+                refs = {}
+                for i in ents.get(root, ()):
+                    if (root, i, sname) not in child:
+                        continue
+                    v = fvals.get((root, i, sname, field), "absent")
+                    if v.startswith("s") and v != "s-":
+                        t = v[1:]
+                        if t not in ents.get(troot, ()):
+                            probs.append("fk %s.%s: entity %s references missing %s %s" % (sname, field, i, target, t))
+                        refs.setdefault(t, set()).add(i)
+                if c[0] == "FI":
+                    back = c[3]
+                    for t in ents.get(troot, ()):
+                        have = setm.get((troot, t, back), set())
+                        want = refs.get(t, set())
+                        if have != want:
+                            probs.append("fk %s.%s: back-references %s.%s of %s are %s, referrers are %s" % (
+                                sname, field, target, back, t, sorted(have), sorted(want)))
+    return probs
+
+
+class RootView:
+    """the schema without the fk constraints that child stores declare on their own fields (judged by child_fk_oracle)"""
+
+    def __init__(self, sch):
+        self.order = sch.order
+        self.stores = {}
+        for n, sd in sch.stores.items():
+            own = set(fn for fn, _ in sd["fields"]) if sd["parent"] else set()
+            d = dict(sd)
+            d["cons"] = [c for c in sd["cons"] if not (c[0] in ("FI", "FC") and c[1] in own)]
+            self.stores[n] = d
+
+    def root(self, s):
+        return self.stores[s]["parent"] or s
+
+
 def consistency_problems(sch, facts):
     """the property's own reading of 'consistent': C03 + C04 + C05 mirror statements on the raw facts"""
-    return (storefam.index_oracle(sch, facts) + storefam.fk_oracle(sch, facts) + links_oracle(sch, facts)
-            + nonnull_oracle(sch, facts))
+    return (storefam.index_oracle(sch, facts) + storefam.fk_oracle(RootView(sch), facts) + child_fk_oracle(sch, facts)
+            + links_oracle(sch, facts) + nonnull_oracle(sch, facts))
 
 
 def genuine_conflict(sch, p):
@@ -130,17 +199,32 @@ def genuine_conflict(sch, p):
     return False
 
 
-def oracle(sch, io):
+MODES = {"": "every step in a transaction of its own",
+         "J": "corruptions committed; check-only, fix and re-check inside ONE write transaction",
+         "CJ": "raw corruptions, check-only, fix and re-check inside ONE write transaction (nothing committed in between)",
+         "LCJ": "the last transaction of the history, the raw corruptions, check-only, fix and re-check inside ONE write "
+                "transaction (the checker runs in the transaction that wrote the entities, before commit)"}
+
+
+def case_mode(case):
+    k = case.rfind(" MODE ")
+    return case[k + 6:].strip() if k >= 0 else ""
+
+
+def oracle(sch, io, mode=""):
     """direct verdicts on the implementation's observation: list of (key, description)"""
     out = []
-    rep = lambda key, what: out.append((key, what))
+    where = (" [%s]" % MODES[mode]) if mode else ""
+    rep = lambda key, what: out.append((key, what + where))
     pre = io["PRE"]["facts"]
+    ckr_readonly = mode in ("", "J")     # in the other modes the first check-only run sits in the write transaction too
     # read-only in check mode (both transaction kinds), and a read-only transaction must be usable
     for tag in ("CKR", "CKW"):
         ph = io[tag]
         if ph["status"] != "ok":
-            rep("C09:check-only-fails-%s" % ("readonly-tx" if tag == "CKR" else "write-tx"),
-                "check-only CheckIntegrity in a %s transaction ended with %s" % ("read-only" if tag == "CKR" else "write", ph["status"]))
+            ro = tag == "CKR" and ckr_readonly
+            rep("C09:check-only-fails-%s" % ("readonly-tx" if ro else "write-tx"),
+                "check-only CheckIntegrity in a %s transaction ended with %s" % ("read-only" if ro else "write", ph["status"]))
         if ph["facts"] != pre:
             rep("C09:check-only-changed-db", "check-only mode changed the database: +%s -%s" % (
                 sorted(set(ph["facts"]) - set(pre))[:4], sorted(set(pre) - set(ph["facts"]))[:4]))
@@ -178,6 +262,17 @@ def oracle(sch, io):
     if fx["status"] == "ok" and fx["facts"] != io["CKW"]["facts"] and not any(r.endswith(":1") for r in fx["reports"]):
         rep("C09:fix-without-report", "the fix run changed the database without reporting anything as fixed: +%s -%s" % (
             sorted(set(fx["facts"]) - set(io["CKW"]["facts"]))[:4], sorted(set(io["CKW"]["facts"]) - set(fx["facts"]))[:4]))
+    # joint modes: the verdict given inside the transaction must be the verdict on what the transaction commits
+    post = io.get("POST")
+    if post is not None and rck["status"] == "ok":
+        if post["status"] != "ok":
+            rep("C09:check-only-fails-readonly-tx", "check-only CheckIntegrity in a read-only transaction after the commit ended with " + post["status"])
+        elif post["facts"] != rck["facts"]:
+            rep("C09:commit-differs", "the committed database differs from what the transaction saw: +%s -%s" % (
+                sorted(set(post["facts"]) - set(rck["facts"]))[:4], sorted(set(rck["facts"]) - set(post["facts"]))[:4]))
+        elif sorted(post["reports"]) != sorted(rck["reports"]):
+            rep("C09:verdict-depends-on-commit", "check-only inside the write transaction reported %s, the same check on the same "
+                "content right after the commit reports %s" % (rck["reports"][:6], post["reports"][:6]))
     seen, uniq = set(), []
     for k, w in out:
         if k not in seen:
@@ -187,11 +282,14 @@ def oracle(sch, io):
 
 
 CORR_ARITY = {"UD": 4, "SDK": 4, "SAK": 4, "SJ": 4, "FN": 4, "UP": 5, "SDI": 5, "SAI": 5, "ED": 5, "EA": 5, "FS": 5,
-              "EDB": 4, "EEB": 4, "SEK": 4, "XDB": 3, "XEB": 3}
+              "EDB": 4, "EEB": 4, "SEK": 4, "XDB": 3, "XEB": 3, "CFS": 6, "CFN": 5}
 
 
 def split_case(case):
-    """-> (schema text, [tx texts], [corruption texts])"""
+    """-> (schema text, [tx texts], [corruption texts]); the MODE suffix is dropped (case_mode)"""
+    k = case.rfind(" MODE ")
+    if k >= 0:
+        case = case[:k]
     body, _, corr = case.partition(" CORRUPT ")
     parts = body.split(" TX ")
     toks = corr.split()[1:] if corr else []
@@ -203,8 +301,54 @@ def split_case(case):
     return parts[0], parts[1:], cs
 
 
-def join_case(schema, txs, cs):
-    return schema + "".join(" TX " + t for t in txs) + " CORRUPT %d" % len(cs) + "".join(" " + x for x in cs)
+def join_case(schema, txs, cs, mode=""):
+    return (schema + "".join(" TX " + t for t in txs) + " CORRUPT %d" % len(cs) + "".join(" " + x for x in cs)
+            + (" MODE " + mode if mode else ""))
+
+
+def split_ops(tx):
+    """a transaction text (without the leading 'TX ') -> (header tokens, [op token lists])"""
+    t = tx.split()
+    nv = int(t[2])
+    pos = 3 + 3 * nv
+    head = t[:pos]
+    n = int(t[pos])
+    pos += 1
+    ops = []
+
+    def fvsv(pos):
+        nf = int(t[pos])
+        pos += 1 + 2 * nf
+        ns = int(t[pos])
+        pos += 1
+        for _ in range(ns):
+            pos += 2 + int(t[pos + 1])
+        return pos
+
+    for _ in range(n):
+        start = pos
+        k = t[pos]
+        if k == "C":
+            pos = fvsv(pos + 4)
+        elif k == "UP":
+            pos = fvsv(pos + 3)
+            pos += 1 if t[pos] == "-" else 1 + int(t[pos])
+        elif k == "D":
+            pos += 3
+        elif k in ("AL", "RL"):
+            pos += 5 + int(t[pos + 4])
+        elif k == "FAIL":
+            pos += 1
+        elif k == "FAILT":
+            pos += 3
+        else:
+            raise ValueError("bad op " + k)
+        ops.append(t[start:pos])
+    return head, ops
+
+
+def join_ops(head, ops):
+    return " ".join(head + [str(len(ops))] + [x for o in ops for x in o])
 
 
 def run_one(c, harness, case):
@@ -219,9 +363,11 @@ def run_one(c, harness, case):
     return lines[0] if lines else None
 
 
-def shrink(c, harness, case, key, budget=40):
+def shrink(c, harness, case, key, budget=60):
     """greedy one-at-a-time removal of corruptions, then of transactions, keeping the same violation key"""
+    accept = CONVERGENCE_KEYS if key == DIRTY_KEY else (key,)
     schema, txs, cs = split_case(case)
+    mode = case_mode(case)
     sch = storefam.Schema(schema.split())
     best_impl = None
 
@@ -230,14 +376,14 @@ def shrink(c, harness, case, key, budget=40):
         if budget <= 0:
             return False
         budget -= 1
-        obs = run_one(c, harness, join_case(schema, txs2, cs2))
+        obs = run_one(c, harness, join_case(schema, txs2, cs2, mode))
         if obs is None:
             return False
         try:
-            keys = [k for k, _ in oracle(sch, parse_phases(obs))]
+            keys = [k for k, _ in oracle(sch, parse_phases(obs), mode)]
         except Exception:
             return False
-        if key in keys:
+        if any(k in keys for k in accept):
             best_impl = obs
             return True
         return False
@@ -249,11 +395,22 @@ def shrink(c, harness, case, key, budget=40):
             cand = cs[:k] + cs[k + 1:]
             if still(txs, cand):
                 cs, changed = cand, True
-        for k in range(len(txs) - 1, -1, -1):
+        # in the LCJ mode the last transaction is the live one: it stays, its operations are removed one by one
+        last = len(txs) - 1 if mode == "LCJ" else len(txs)
+        for k in range(last - 1, -1, -1):
             cand = txs[:k] + txs[k + 1:]
             if still(cand, cs):
                 txs, changed = cand, True
-    return join_case(schema, txs, cs), best_impl
+        if mode == "LCJ" and txs:
+            try:
+                head, ops = split_ops(txs[-1])
+            except Exception:
+                ops = []
+            for k in range(len(ops) - 1, -1, -1):
+                cand = txs[:-1] + [join_ops(head, ops[:k] + ops[k + 1:])]
+                if still(cand, cs):
+                    txs, ops, changed = cand, ops[:k] + ops[k + 1:], True
+    return join_case(schema, txs, cs, mode), best_impl
 
 
 def compare(sch, io, mo):
@@ -281,7 +438,9 @@ def main(argv):
         "Go harness store.go / store_gen.go / store_c09.go (schema interpreter, history generator, raw corruption writer, fact projection, "
         "message-to-kind mapping) and lib/storefam.py + checks/c09.py (independent consistency oracle)",
     ]
-    c.assumptions = ["corruptions are committed before the checker runs (bbolt's skip-after-delete only concerns keys written in the same transaction)",
+    c.assumptions = ["the model visits every entry of a bucket; boltz does so unless the fix run removes an entry from a bucket already written in its "
+                     "own transaction (bbolt skip-after-delete): known finding " + DIRTY_KEY + ", design/C09.md section 10.4",
+                     "fix_convergent / reachable_check_clean do not cover fk jobs declared on child stores (wiring C09xf): tested there, not proved",
                      "storage errors (over-long keys) during a fix are not modelled"]
     proof_ok = c.proof_step(FILES)
     model = vlib.build_model("C09")
@@ -291,7 +450,7 @@ def main(argv):
                     dict(correspondence="harness build", log=err[-3000:]), no_input=True)
         return c.finish()
     cases_path = os.path.join(c.work, "cases.txt")
-    corpus = os.path.join(vlib.VERIF, "corpus", "store", "c09.txt")
+    dirty_cases = set()
     if c.replay:
         rp = json.load(open(c.replay))
         rin = os.path.join(c.work, "replay_in.txt")
@@ -302,10 +461,17 @@ def main(argv):
         args = [harness, "c09", "--seed", str(c.seed), "--tier", c.tier, "--out", c.work, "--tmp", c.work]
         # corpus: defect reproductions / stress cases, then the order-dependence witness (known finding)
         merged = os.path.join(c.work, "corpus.txt")
+        ncorpus = 0
         with open(merged, "w") as f:
-            for cp in (corpus, os.path.join(vlib.VERIF, "corpus", "store", "c09_order.txt")):
+            for name in ("c09.txt", "c09_order.txt", "c09_w3.txt", "c09_dirty.txt"):
+                cp = os.path.join(vlib.VERIF, "corpus", "store", name)
                 if os.path.exists(cp):
-                    f.write(open(cp).read() + "\n")
+                    text = open(cp).read()
+                    k = sum(1 for l in text.split("\n") if l.strip() and not l.strip().startswith("#"))
+                    if name == "c09_dirty.txt":
+                        dirty_cases = set(range(ncorpus, ncorpus + k))
+                    ncorpus += k
+                    f.write(text + "\n")
         args += ["--corpus", merged]
     gen = dict(seed=c.seed, tier=c.tier)
     rc, out = vlib.run(args, timeout=3000)
@@ -327,6 +493,7 @@ def main(argv):
             continue
         sch = storefam.Schema(case.split(" TX ")[0].split(" CORRUPT ")[0].split())
         io, mo = parse_phases(i), parse_phases(m)
+        mode = case_mode(case)
         ncorr = int(case.split(" CORRUPT ")[1].split()[0]) if " CORRUPT " in case else 0
         if ncorr > 0 or io["CKW"]["reports"]:
             distinct.add(case)
@@ -334,17 +501,27 @@ def main(argv):
             for r in io[ph]["reports"]:
                 kinds_seen[ph + ":" + r] += 1
         if c.replay:
+            if mode:
+                vlib.log("REPLAY mode %s: %s" % (mode, MODES[mode]))
+            if "POST" in io:
+                vlib.log("REPLAY POST (after the commit)\n  impl : %s %s %s" % (io["POST"]["status"], io["POST"]["flags"], io["POST"]["reports"]))
             for tag in ("PRE", "CKR", "CKW", "FIX", "RCK"):
                 vlib.log("REPLAY %s\n  impl : %s %s %s\n  model: %s %s %s" % (tag, io[tag]["status"], io[tag]["flags"], io[tag]["reports"],
                                                                             mo[tag]["status"], mo[tag]["flags"], mo[tag]["reports"]))
                 fa, fb = set(io[tag]["facts"]), set(mo[tag]["facts"])
                 if fa != fb:
                     vlib.log("  facts only impl : %s\n  facts only model: %s" % (sorted(fa - fb), sorted(fb - fa)))
-        found = oracle(sch, io)
+        found = oracle(sch, io, mode)
         if getattr(sch, "wiring", "") == "ufk":
             # a schema outside wf_c09 (unique index on a nullable fk field): non-convergence is the known order dependence
             found = [(ORDER_KEY if k in ("C09:fix-not-convergent", "C09:fix-leaves-inconsistency") else k,
                       "unique index on a field with a nullable fk constraint: " + w) for k, w in found]
+            found = [kw for n, kw in enumerate(found) if kw[0] not in [x[0] for x in found[:n]]]
+        dirty_class = (mode in ("CJ", "LCJ") and ncorr > 0) or idx in dirty_cases or (c.replay and rp.get("key") == DIRTY_KEY)
+        if dirty_class:
+            found = [(DIRTY_KEY if k in CONVERGENCE_KEYS else k,
+                      ("the fix run removes entries from buckets written earlier in its own transaction: " + w) if k in CONVERGENCE_KEYS else w)
+                     for k, w in found]
             found = [kw for n, kw in enumerate(found) if kw[0] not in [x[0] for x in found[:n]]]
         for key, what in found:
             if sum(1 for v in c.violations if v[0] == key) >= 3 or any(f.get("status") == "known" and f.get("key") == key for f in c.findings):
@@ -362,7 +539,12 @@ def main(argv):
         if found:
             continue
         d = compare(sch, io, mo)
-        if d:
+        if d and dirty_class and d.split(":")[0] in ("FIX", "RCK"):
+            # the same mechanism seen through the model: e.g. the set-index scan skips the live id behind a removed stale one,
+            # counts no reference, drops the whole key and "repairs" the entry it has just destroyed
+            c.violation(DIRTY_KEY, "the fix run removes entries from buckets written earlier in its own transaction; its reports / "
+                        "result differ from a fix run that visits every entry: " + d, dict(case=case, impl=i, model=m, gen=dict(gen, index=idx)))
+        elif d:
             disagreements.append((case, i, m, d, idx))
     c.cov["evaluations"] = len(cases)
     c.cov["distinct_nontrivial"] = len(distinct)
@@ -377,7 +559,14 @@ def main(argv):
                      "without referrers (neutral); genuine conflicts: duplicate unique value, nil "
                      "in a non-nullable field) committed in a separate transaction; half of the draws uniform over the candidates, half uniform over the classes; quick: random subsets of 0-8 corruptions; thorough additionally all "
                      "subsets of <= 4 out of a pool of 8 corruptions (one per class first) on 50 states. Phases: check-only in a read-only and in a write "
-                     "transaction, fix, re-check. Non-trivial: at least one corruption or at least one report; distinct by case text.")
+                     "transaction, fix, re-check. Third stream (design/C09.md section 10): the same cases with the steps grouped into transactions differently - "
+                     "J: corruptions committed, then check-only + fix + re-check inside ONE db.Update; CJ: raw corruptions, check-only, fix and re-check inside one "
+                     "db.Update; LCJ: additionally the tail of the history (40%: the whole history) merged into one transaction whose operations run first inside that "
+                     "db.Update (populate / update through the API and check before commit; half of these without corruption); facts and byte-exact dump are read "
+                     "through the open transaction, a POST check-only phase after the commit must repeat the verdict of the re-check. Fourth stream: wirings C09xu / "
+                     "C09xf (Extended and plain child store with non-nullable unique indexes / fk indexes / fk constraints on fields of their own; ten ids; the "
+                     "first, middle or last third of the id range created without child data), corruptions of child-bucket fields included. "
+                     "Non-trivial: at least one corruption or at least one report; distinct by case text.")
     c.cov["report_kinds_seen"] = dict(kinds_seen)
     ks = sorted(set((0, len(cases) // 2, max(0, len(cases) - 1))))
     c.cov["samples"] = [dict(case=cases[k][:1500], impl=impl[k][:1500], model=modl[k][:1500]) for k in ks if k < len(cases)]
